@@ -167,7 +167,18 @@ func smtIntS(s string) string {
 }
 
 // sortOf maps a Go type to an SMT sort, declaring datatypes on demand.
+// isTimeTime: time.Time is modelled as an unbounded Int of nanoseconds since the Unix epoch (UTC).
+func isTimeTime(t types.Type) bool {
+	n, ok := t.(*types.Named)
+	return ok && n.Obj().Pkg() != nil && n.Obj().Pkg().Path() == "time" && n.Obj().Name() == "Time"
+}
+
+const timeZeroNs = "(- 62135596800000000000)"
+
 func (c *Ctx) sortOf(t types.Type) string {
+	if isTimeTime(t) {
+		return "Int"
+	}
 	switch u := t.Underlying().(type) {
 	case *types.Basic:
 		switch {
@@ -208,6 +219,10 @@ func (c *Ctx) structSort(t types.Type, u *types.Struct) string {
 	name := "S_" + sanitize(shortType(t))
 	if _, ok := t.(*types.Struct); ok {
 		name = "S_anon_" + sanitize(fmt.Sprintf("%x", hashStr(u.String())))
+	}
+	if prev, ok := c.structOf[name]; ok && prev != u {
+		// same short name, different type (e.g. sync.Mutex vs internal/sync.Mutex)
+		name += fmt.Sprintf("_%x", hashStr(t.String()))
 	}
 	if c.sortSeen[name] {
 		return name
@@ -268,6 +283,9 @@ func shortType(t types.Type) string {
 
 // zero returns the zero value term of a Go type.
 func (c *Ctx) zero(t types.Type) string {
+	if isTimeTime(t) {
+		return timeZeroNs
+	}
 	s := c.sortOf(t)
 	switch u := t.Underlying().(type) {
 	case *types.Struct:
@@ -490,3 +508,11 @@ func implies(a, b string) string {
 }
 
 func itoa(i int) string { return strconv.Itoa(i) }
+
+// locUnder is Underlying() except that time.Time is treated as an opaque scalar cell.
+func locUnder(t types.Type) types.Type {
+	if isTimeTime(t) {
+		return types.Typ[types.Int64]
+	}
+	return t.Underlying()
+}
